@@ -30,6 +30,8 @@ pub fn gcd<const BITS: usize, const LIMBS: usize>(
             // Lehmer step failed to find a factor, which happens when
             // the factor is very large. We do a regular Euclidean step, which
             // will make a lot of progress since `q` will be large.
+            #[cfg(feature = "recmo_uint_verif")]
+            crate::verif_hooks::hit(129);
             a %= b;
             swap(&mut a, &mut b);
         } else {
@@ -93,6 +95,8 @@ pub fn gcd_extended<const BITS: usize, const LIMBS: usize>(
             // Lehmer step failed to find a factor, which happens when
             // the factor is very large. We do a regular Euclidean step, which
             // will make a lot of progress since `q` will be large.
+            #[cfg(feature = "recmo_uint_verif")]
+            crate::verif_hooks::hit(129);
             let q = a / b;
             a -= q * b;
             swap(&mut a, &mut b);
@@ -168,6 +172,8 @@ pub fn inv_mod<const BITS: usize, const LIMBS: usize>(
             // Lehmer step failed to find a factor, which happens when
             // the factor is very large. We do a regular Euclidean step, which
             // will make a lot of progress since `q` will be large.
+            #[cfg(feature = "recmo_uint_verif")]
+            crate::verif_hooks::hit(129);
             let q = a / b;
             a -= q * b;
             swap(&mut a, &mut b);
